@@ -1,7 +1,12 @@
 """copies confirmed seeded changes from the scratch area into /verif/seeded/<id>_<m>/ (patch.diff, demo.py, meta.json)
 usage: store_seeded.py  (reads /tmp/mut, /tmp/seedeval)"""
 import json, pathlib, re, shutil
-MUT, EV, OUT = pathlib.Path("/tmp/mut"), pathlib.Path("/tmp/seedeval"), pathlib.Path("/verif/seeded")
+import sys
+ROUND = sys.argv[1] if len(sys.argv) > 1 else "1"
+MUT = pathlib.Path("/tmp/mut" if ROUND == "1" else "/tmp/mut2")
+EV = pathlib.Path("/tmp/seedeval" if ROUND == "1" else "/tmp/seedeval2")
+LOGS = pathlib.Path("/tmp/evalcopies/logs")
+OUT = pathlib.Path("/verif/seeded")
 OUT.mkdir(exist_ok=True)
 rows = []
 for d in sorted(MUT.glob("C??/m?")):
@@ -16,22 +21,25 @@ for d in sorted(MUT.glob("C??/m?")):
         print("NOT CONFIRMED", pid, m, r)
         continue
     meta0 = json.loads((d / "meta.json").read_text())
-    tgt = OUT / f"{pid}_{m}"
+    name = f"{pid}_{m}" if ROUND == "1" else f"{pid}_r2{m}"
+    tgt = OUT / name
     tgt.mkdir(exist_ok=True)
     shutil.copy(d / "patch.diff", tgt / "patch.diff")
     demo = (d / "demo.py").read_text().replace("/tmp/agent_stubs", "/verif/stubs")
-    demo = re.sub(r"/tmp/wt/C\d\d(/src)?", "/repo/src", demo)
+    demo = re.sub(r"/tmp/wt2?/C\d\d(/src)?", "/repo/src", demo)
     (tgt / "demo.py").write_text(demo)
     # detection by the property's own check (quick tier), from the last run of tools/seed_check.sh
-    log = EV / f"{pid}_{m}_check_{pid}.log"
-    lines = [l for l in (log.read_text().splitlines() if log.exists() else []) if l.startswith(("VIOLATION", "UNDECIDED", "CHECKER-DEFECT"))]
+    # detection: the last scratch-copy run of the property's own check against this change (tools/eval_patch.sh, tag S<round><id><m>)
+    log = LOGS / f"S{ROUND}{pid}{m}_{pid}.log"
+    text = log.read_text() if log.exists() else ""
+    lines = [l for l in text.splitlines() if l.startswith(("VIOLATION", "UNDECIDED", "CHECKER-DEFECT"))]
     det = None
-    tsv = EV / "detect.tsv"
-    if tsv.exists():
-        for l in tsv.read_text().splitlines():
-            c = l.split("\t")
-            if len(c) >= 3 and c[0] == pid and c[1] == m:
-                det = c[2]
+    ex = LOGS / f"S{ROUND}{pid}{m}.exit"
+    if ex.exists():
+        for l in ex.read_text().splitlines():
+            mm = re.match(rf"S{ROUND}{pid}{m} {pid} exit=(\d+)", l)
+            if mm:
+                det = mm.group(1)
     names = []
     for l in lines:
         mm = re.search(r"replay=(\S+)", l)
@@ -51,7 +59,8 @@ for d in sorted(MUT.glob("C??/m?")):
         "needs_to_manifest": meta0.get("needs_to_manifest"),
         "why_existing_tests_pass": meta0.get("why_tests_pass"),
         "origin": "written by a fresh sub-agent that was given only the text of the property and a scratch git worktree of the repository (nothing from /verif)"
-                  + ("; rebased by hand onto the repaired tree (the original patch no longer applied after fix 6a107e8)" if (d / "patch_orig.diff").exists() else ""),
+                  + ("; rebased by hand onto the repaired tree (the original patch no longer applied after fix 6a107e8)" if (d / "patch_orig.diff").exists() else "")
+        + ("; second round: the agent was also told which two changes were already known for this property and asked for different mechanisms" if ROUND == "2" else ""),
         "what_the_agent_ran": meta0.get("ran"),
         "what_i_ran_to_confirm": {
             "cmd": f"tools/seed_confirm.sh {pid} {m}  (scratch worktree of /repo HEAD; demo.py on the clean tree, then with patch.diff applied; then the full pinned test suite with the patch)",
@@ -59,7 +68,8 @@ for d in sorted(MUT.glob("C??/m?")):
             "suite_passed_with_change": int(sp.group(1)), "baseline_tests_missing": int(sp.group(2)),
         },
         "detection": {
-            "cmd": f"git -C /repo apply seeded/{pid}_{m}/patch.diff; ./check {pid} --tier quick; git -C /repo checkout -- .",
+            "cmd": f"tools/eval_patch.sh seeded/{name}/patch.diff <tag> {pid}   (scratch copy of /repo HEAD with the change applied, ASPIRE_REPO=<copy> ./check {pid} --tier quick; "
+                   f"equivalently: git -C /repo apply seeded/{name}/patch.diff; ./check {pid}; git -C /repo checkout -- .)",
             "check_exit": int(det) if det and det.isdigit() else det,
             "violations_reported": len([l for l in lines if l.startswith("VIOLATION")]),
             "failed_obligations_or_cases": sorted(set(names))[:8],
